@@ -62,6 +62,7 @@ type modelState struct {
 	fnIDs          map[*ssa.Function]int64
 	extraVars      []*smt.Term
 	civilSeq       int
+	splitCalendar  bool
 	civilMemo      map[int][3]*smt.Term
 	pureMemo       map[*ssa.BasicBlock]bool
 	IfConverted    int
@@ -75,6 +76,7 @@ func (ex *Exec) modelReset() {
 	ex.fpSeq = 0
 	ex.extraVars = nil
 	ex.civilSeq = 0
+	ex.splitCalendar = false
 	ex.civilMemo = nil
 }
 
